@@ -152,7 +152,7 @@ func (h *c17SsHooks) build(env *c17Env, c c17Case) (byte, []byte, bool) {
 
 func (h *c17SsHooks) probe(env *c17Env) string {
 	r := h.r[env.name]
-	if !c17WithTimeout(3*time.Second, func() { r.mtx.Lock(); r.mtx.Unlock() }) { //nolint:staticcheck
+	if !c17WithTimeout(10*time.Second, func() { r.mtx.Lock(); r.mtx.Unlock() }) { //nolint:staticcheck
 		return "statesync reactor mutex held"
 	}
 	return "ok"
